@@ -125,6 +125,14 @@ def durationOfUnit (kind : Nat) (n : Int) : Option Int :=
     else n
   if durOk secs then some secs else none
 
+/-- the date constants of the text lexer (src/tokinizer/regex_tokinizer/text.rs:23-37):
+    constant kinds 8 `today`, 9 `tomorrow`, 10 `yesterday` -/
+def constDate (now : Now) (kind : Nat) : Option YMD :=
+  if kind = 8 then some (dateOfSecs now.secs)
+  else if kind = 9 then addDays? (dateOfSecs now.secs) 1
+  else if kind = 10 then addDays? (dateOfSecs now.secs) (-1)
+  else none
+
 def constantOf (c : Cfg F) (lang : String) (word : String) : Option Nat :=
   (c.lang? lang).bind fun l => assoc? l.constants word
 
